@@ -252,12 +252,13 @@ Lemma eval_other_keeps_iter own e (t : ctree) (w w' : cworld) r :
   (forall src field, e <> PNext src field) -> (forall src lst, e <> PVNext src lst) ->
   eval_pexpr own e t w = Some (w', r) -> w' = w.
 Proof.
-  intros Hn Hv. destruct e as [src f|src f|src i f|k|src lst|rq v|rq v]; cbn [eval_pexpr].
+  intros Hn Hv. destruct e as [src f|src f|src i f|k|src lst|rq v|rq v|v]; cbn [eval_pexpr].
   - exfalso. eapply Hn. reflexivity.
   - destruct (assoc_table _ src) as [[|row rows]|]; intros H; try discriminate; injection H as <- _; reflexivity.
   - destruct (assoc_table _ src) as [[|row rows]|]; intros H; try discriminate; injection H as <- _; reflexivity.
   - intros H; injection H as <- _; reflexivity.
   - exfalso. eapply Hv. reflexivity.
+  - intros H; injection H as <- _; reflexivity.
   - intros H; injection H as <- _; reflexivity.
   - intros H; injection H as <- _; reflexivity.
 Qed.
